@@ -7,9 +7,6 @@ Open Scope N_scope.
 
 (* ================= calcHashtableSlots ================= *)
 
-(* the largest key count calcHashtableSlots accepts is max_items - 1 ("too many items" beyond) *)
-Definition max_items : N := 1610612736.   (* 3 * 2^29 *)
-
 Lemma primes_range :
   forallb (fun p => (1 <=? p)%Z && (p <? 2147483648)%Z) strmap_bits2primes = true.
 Proof. vm_compute. reflexivity. Qed.
@@ -54,8 +51,6 @@ Variable V : Type.
 Variable hash : bytes -> N.
 Notation item := (item V).
 Notation strmap := (strmap V).
-
-Definition slot_le (a b : item) : Prop := islot a <= islot b.
 
 (* key bytes of an item inside data; slot of a key in a table of u slots *)
 Definition ekey (d : bytes) (e : item) : bytes := match key_of d e with Ok k => k | _ => [] end.
@@ -206,10 +201,11 @@ Qed.
 
 (* ================= LoadFromSlice establishes the invariant ================= *)
 Variable sort : list item -> list item.
-Hypothesis sort_perm : forall l, Permutation l (sort l).
-Hypothesis sort_sorted : forall l, Sorted slot_le (sort l).
-
-Definition small (k : bytes) : Prop := len k <= max_uint32.
+Hypothesis sort_is_ok : sort_ok sort.
+Lemma sort_perm l : Permutation l (sort l).
+Proof. apply sort_is_ok. Qed.
+Lemma sort_sorted l : Sorted (@slot_le V) (sort l).
+Proof. apply sort_is_ok. Qed.
 
 Lemma key_of_mid pre k post (e : item) :
   ioff e = len pre -> isz e = len k -> key_of (pre ++ k ++ post) e = Ok k.
@@ -317,7 +313,7 @@ Proof.
       f_equal. lia.
 Qed.
 
-Lemma sorted_strongly l : Sorted slot_le l -> StronglySorted slot_le l.
+Lemma sorted_strongly (l : list item) : Sorted slot_le l -> StronglySorted slot_le l.
 Proof.
   apply Sorted_StronglySorted. intros a b c. unfold slot_le. lia.
 Qed.
@@ -402,8 +398,6 @@ Proof.
 Qed.
 
 (* ================= the properties ================= *)
-Definition loadable (kk : list bytes) : Prop := Forall small kk /\ len kk < max_items.
-
 Theorem get_spec st kk (vv : list V) s :
   length kk = length vv -> NoDup kk -> loadable kk ->
   snd (load hash sort st kk vv) = Ok tt /\
@@ -575,7 +569,7 @@ Proof.
 Qed.
 
 Lemma insert_by_slot_sorted (e : item) l :
-  Sorted (slot_le V) l -> Sorted (slot_le V) (insert_by_slot e l).
+  Sorted (@slot_le V) l -> Sorted (@slot_le V) (insert_by_slot e l).
 Proof.
   induction l as [|x r IH]; cbn [insert_by_slot]; intros Hs.
   - repeat constructor.
@@ -587,10 +581,13 @@ Proof.
       * inversion Hhd; subst. destruct (islot e <=? islot y); constructor; [unfold slot_le; lia|assumption].
 Qed.
 
-Lemma isort_sorted (l : list item) : Sorted (slot_le V) (isort l).
+Lemma isort_sorted (l : list item) : Sorted (@slot_le V) (isort l).
 Proof.
   induction l as [|e l IH]; cbn [isort fold_right]; [constructor|].
   now apply insert_by_slot_sorted.
 Qed.
+
+Theorem isort_ok : sort_ok (@isort V).
+Proof. split; [exact isort_perm|exact isort_sorted]. Qed.
 
 End ISort.
